@@ -9,6 +9,10 @@ def spec (_net _net' : Net) (toks : List String) (ires : String) : Option String
     if ires.startsWith "crash" || ires == "timeout" || ires == "err:PANIC" then
       some s!"lookup did not return a node or an error: {ires}"
     else none
+  | "joinprobe" :: _ =>
+    if (ires.splitOn "timeout").length > 1 || (ires.splitOn "PANIC").length > 1 || ires.startsWith "crash" then
+      some s!"a lookup at a joining node / the join it belongs to did not return: {ires}"
+    else none
   | _ => none
 
 end Specter.C09Drv
